@@ -90,6 +90,19 @@ Theorem C15_request_unchanged_extract_partial : forall st opname k m m' C r,
 Proof. exact extract_request_unchanged. Qed.
 Print Assumptions C15_request_unchanged_extract_partial.
 
+(* ---- ... and composed through the WHOLE pipeline, for every plugin list with ExtractOperations configured at
+        most once and freshly constructed: every method of the generated package sends what the unplugged method
+        sends, the document being resolved through the operations module that was written
+        [full; hypotheses: std_body of the unplugged methods, distinct constant names] ---- *)
+Theorem C15_request_unchanged : forall ps u p,
+  List.length (estates ps) <= 1 -> init_ok ps ->
+  Forall (fun o => std_body (uo_method o) = true) (u_ops u) ->
+  NoDup (map const_name (map uo_name (u_ops u))) ->
+  generate ps u = Some p ->
+  map (request_of (List.concat (pk_operations p))) (cm_methods (pk_client p)) = map op_req (u_ops u).
+Proof. exact request_unchanged_package. Qed.
+Print Assumptions C15_request_unchanged.
+
 (* ---- ClientForwardRefs: annotations keep their denotation [full]; only names imported from the package are
         turned into strings [full]; every deferred import names the module the unplugged client imported the name
         from [full] (was refuted on the tree before /repo 7b86743 — finding F24, fixed; regression Examples below) ---- *)
@@ -159,6 +172,22 @@ Example C15_all_plugins_example :
   consts p = [("GET_ME_GQL", "query GetMe { me { id } }")] /\
   std_body mini_method = true.
 Proof. vm_compute. repeat split. Qed.
+
+(* the hypotheses of C15_request_unchanged are met by that run *)
+Example C15_request_unchanged_hypotheses :
+  let ps := [S0; E0; PIdentity; PForward; PNoReimports] in
+  List.length (estates ps) = 1 /\ init_ok ps /\
+  Forall (fun o => std_body (uo_method o) = true) (u_ops mini) /\
+  NoDup (map const_name (map uo_name (u_ops mini))) /\
+  (exists p, generate ps mini = Some p) /\
+  map op_req (u_ops mini) = [Some ("query GetMe { me { id } }", "GetMe", "response = await self.execute(..)", "variables = {}")].
+Proof.
+  cbv zeta. split; [reflexivity|].
+  split; [intros st0 Hin; vm_compute in Hin; destruct Hin as [<-|[]]; repeat split|].
+  split; [repeat constructor|].
+  split; [repeat constructor; intros []|].
+  split; [eexists; vm_compute; reflexivity|vm_compute; reflexivity].
+Qed.
 
 (* regression examples for finding F24 (fixed by /repo 7b86743): the deferred import is `from .get_me import
    GetMe` — one dot — and TYPE_CHECKING is imported from the absolute module `typing` (level 0), both in the
